@@ -120,10 +120,23 @@ func c05Run(w *W) {
 	}
 	nreq := 0
 	for op := 0; op < nops && !w.Failed(); op++ {
-		k := w.Choose(simrt.SProg, 10)
+		k := w.Choose(simrt.SProg, 11)
 		a := w.Choose(simrt.SProg, 64)
 		c := ctxs[a%len(ctxs)]
 		switch {
+		case k == 10:
+			// a new client connects (possibly right after another one left,
+			// while replies to the one that left are still to be sent)
+			if len(pipes) < 8 {
+				np := mn.ConnectWith(addr, func(p *MsgPipe) {
+					pipes = append(pipes, p)
+					p.OnSend = func(m WireMsg) { wire = append(wire, m) }
+				})
+				if np != nil {
+					w.Op("new peer %s connects", np.Name)
+					w.Probe("peer-connects-mid-history")
+				}
+			}
 		case k <= 3: // a peer sends a request
 			var open []*MsgPipe
 			for _, p := range pipes {
